@@ -50,6 +50,20 @@ fn main() {
                 eprintln!("MACHINERY ERROR: unknown check {id}");
                 std::process::exit(2);
             }
+            #[cfg(fast_tlsh_verif)]
+            {
+                // every enumeration in a hook build runs under the invariant monitor
+                let (_, fails) = tlsh::verif::invariant_counts();
+                if fails > 0 && !r.violations.iter().any(|v| v.summary.contains("invariant")) {
+                    let mut buf = [0u8; 192];
+                    let n = tlsh::verif::invariant_first_failure(&mut buf);
+                    r.violations.push(vharness::report::Violation {
+                        section: "invariant-monitor".into(),
+                        summary: format!("{fails} invariant!() evaluation(s) were false while this enumeration ran; first: {} (handed to the optimiser as unreachable under feature 'unsafe')", String::from_utf8_lossy(&buf[..n])),
+                        replay: serde_json::json!({"kind": "invariant-monitor", "key": "invariant-false", "check": id}),
+                    });
+                }
+            }
             let js = serde_json::to_string_pretty(&r.to_json()).unwrap();
             std::fs::write(&out, js).expect("write --out");
             std::process::exit(if r.violations.is_empty() { 0 } else { 1 });
